@@ -643,7 +643,7 @@ def run(ctx):
             n += 1
         R.note('thorough: STALE rules also applied to %d of %d test/example units of the build' % (n, len(units)))
     R.expect('STALE-L', 40)
-    R.expect('STALE-F', 1)
+    R.expect('STALE-F', 0)  # after the F1 fix no builder keeps a pointer member into the buffer; the positive example keeps the rule alive
     R.expect('B1-data-follows-memory', 4)
     R.expect('B2-memberwise-complete', 21)
     R.expect('B2-moved-from-reset', 8)
